@@ -188,6 +188,13 @@ func Generate(profile string, seed uint64, tier string) (*Scenario, error) {
 			}
 		}
 		sc.Ops = append(sc.Ops, Op{K: "backup"}, Op{K: "restoreCheck"})
+		if g.P(0.2) && !reset {
+			// after a completed run the hub is stopped and started, a dataset is deleted before anything else is
+			// written, and the hub is stopped and started again (a clean stop each time): the next run has to carry
+			// the deletion
+			sc.Ops = append(sc.Ops, Op{K: "restart"}, Op{K: "deleteDataset", DS: sc.Datasets[len(sc.Datasets)-1]}, Op{K: "restart"}, Op{K: "backup"}, Op{K: "restoreCheck"})
+			return sc, nil
+		}
 		if g.P(0.3) {
 			sc.Ops = append(sc.Ops, Op{K: "foreignBackup", N: g.Intn(2)}, Op{K: "restoreCheck"})
 		}
